@@ -63,8 +63,11 @@ def trash_locations(L, include_insecure=True):
     return out
 
 
+BULK_SIZES = [101, 130, 257, 501, 513, 1001, 1027]
+
+
 def populate(rng, L, steps, n=None, names=None, allow_invalid=False, now=None, only_usable=True,
-             kinds=('file', 'file', 'dir', 'link'), date_fn=None):
+             kinds=('file', 'file', 'dir', 'link'), date_fn=None, bulk=0.0):
     """add n well-formed trashed entries spread over the layout's trash
     directories.  Returns [(tdir, name, location, date)]"""
     locs = [t for t in trash_locations(L, include_insecure=not only_usable) if t[2] or not only_usable]
@@ -76,9 +79,18 @@ def populate(rng, L, steps, n=None, names=None, allow_invalid=False, now=None, o
     # the volume mounted at / has top-directory trash dirs too (/.Trash-$uid): entries get there when the home trash was
     # unusable once, through sudo without -H, --trash-dir ...; every reader scans them like those of any other volume
     root_alt = ('/.Trash-%d' % L['uid'], '/', True)
+    bulkdir = None
+    if bulk and rng.random() < bulk:
+        # one trash directory holds hundreds of entries, just past a round number (whoever reads, sorts, numbers or purges in
+        # batches reaches the batch boundary)
+        n = rng.choice(BULK_SIZES) + rng.choice([0, 1, 2])
+        bulkdir = rng.choice(locs)
     for i in range(n):
         tdir, top, usable = rng.choice(locs) if rng.random() >= 0.12 else root_alt
         base = rng.choice(pool)
+        if bulkdir is not None and i >= 6:
+            tdir, top, usable = bulkdir
+            base = base + '-%d' % i
         # the trash name: base name, possibly with a collision suffix
         short = base
         while len(short.encode('utf-8', 'surrogateescape')) > 200:
